@@ -12,7 +12,7 @@ CLAIMS = {
    note="Not yet under contract: value conservation (inputs = outputs + fee), denomination rule, ownership/signature obligations, worker path. Assumed: UtxoKey is a function of (hash,index); ethdb.Batch ghost contract at interface call sites (backed by C17); cross-block durability rests on the KV engines.",
    design="4 (C01)", technique="contract-based deductive verification with ghost pending-view state and loop invariants, VCs from go/ssa, z3/cvc5"),
  "C12": dict(
-   text="Frame contracts on the real EVM call kinds: Call, CallCode, DelegateCall, StaticCall end in an error only after revertToSnapshot(snapshot taken at entry) or with no journalled mutation, so the mutation counter and the ETX / deleted-lockup list lengths are those at entry (post-fork for the lockup branch, as in the code); evm.snapshot/revertToSnapshot record and restore the state revision and both list lengths. Ghost state (mut, snapTaken, mutAt) is threaded through the vm.StateDB interface contract.",
+   text="Frame contracts on the real EVM call kinds: Call, CallCode, DelegateCall, StaticCall end in an error only after revertToSnapshot(snapshot taken at entry) or with no journalled mutation, so the mutation counter and the ETX / deleted-lockup list lengths are those at entry (post-fork for the lockup branch, as in the code); evm.snapshot/revertToSnapshot record and restore the state revision and both list lengths. Ghost state (mut, snapTaken, mutAt) is threaded through the vm.StateDB interface contract. Call additionally must leave no pending deletion in the block batch behind when it fails (two exits are known findings: the batch is not restored by revertToSnapshot). Nine journal mutator/entry pairs: the entry is appended before the first tracked write and its revert restores every field the mutator writes (structural obligations plus per-entry revert contracts).",
    note="Assumed (trusted) contracts: vm.StateDB methods' ghost effects (RevertToSnapshot restores mut to its value at Snapshot: the journal obligations J1-J4 of core/state are not yet discharged), interpreter.Run / RunLockupContract never rewrite older snapshot records, precompiles and tracers are read-only. Not yet under contract: create/Create (ErrCodeStoreOutOfGas path), the coinbasesDeleted map vs. evm.Batch coupling.",
    design="4 (C12)", technique="contract-based deductive verification with ghost state (snapshot/mutation counters), per-exit VCs from go/ssa, z3/cvc5"),
  "C08": dict(
